@@ -10,15 +10,20 @@ CONSTANTS FlowSet,        \* flow files of the instance
           GwOld,          \* contents of the gateway config file in the old configurations ("none" = absent)
           MaxUpdates,     \* length of the histories of updates on one gateway (1 = single updates)
           PayloadCats,    \* categories of files a payload may carry (1 flows, 4 gateway config, 5 metrics config)
+          NestedPP,       \* path-parameter files in a sub-directory (the engine loads them recursively)
+          NestedFlows,    \* flow files in a sub-directory (inert: flows are read from the top level only)
           AnchorFlows     \* flows that exist (v1) in every old configuration (shrinks the quick instance; {} = no restriction)
 
-PathsMC == FlowSet \cup {"gateway_config.yaml", "metrics.yaml", "default_metrics.yaml"}
-CatMC == [q \in PathsMC |-> IF q \in FlowSet THEN 1 ELSE IF q = "gateway_config.yaml" THEN 4
+PathsMC == FlowSet \cup NestedFlows \cup NestedPP \cup {"gateway_config.yaml", "metrics.yaml", "default_metrics.yaml"}
+CatMC == [q \in PathsMC |-> IF q \in FlowSet \cup NestedFlows THEN 1 ELSE IF q \in NestedPP THEN 3
+                                                     ELSE IF q = "gateway_config.yaml" THEN 4
                                                      ELSE IF q = "metrics.yaml" THEN 5 ELSE 6]
 
 \* old configuration: every flow absent or v1 (at least one flow), gateway config absent or g1, the user's metrics
 \* file absent or m1, the gateway's built-in default metrics file d1 (not part of any payload)
-Disks == {d \in [PathsMC -> {"none", "v1", "g1", "m1", "d1"}] :
+Disks == {d \in [PathsMC -> {"none", "v1", "g1", "m1", "d1", "p1"}] :
+            /\ \A q \in NestedFlows : d[q] \in {"none", "v1"}
+            /\ \A q \in NestedPP : d[q] \in {"none", "p1"}
             /\ \A f \in FlowSet : d[f] \in {"none", "v1"}
             /\ \E f \in FlowSet : d[f] = "v1"
             /\ \A f \in AnchorFlows : d[f] = "v1"
@@ -27,7 +32,9 @@ Disks == {d \in [PathsMC -> {"none", "v1", "g1", "m1", "d1"}] :
             /\ d["default_metrics.yaml"] = "d1"}
 
 \* payload: per path absent / a valid new version / an invalid one
-Opts == {o \in [PathsMC -> {"absent", "v2", "bad", "g2", "gbad", "m2", "mbad"}] :
+Opts == {o \in [PathsMC -> {"absent", "v2", "bad", "g2", "gbad", "m2", "mbad", "p2"}] :
+            /\ \A q \in NestedFlows : o[q] \in {"absent", "v2"}
+            /\ \A q \in NestedPP : o[q] \in {"absent", "p2"}
             /\ \A f \in FlowSet : o[f] \in {"absent", "v2", "bad"}
             /\ o["gateway_config.yaml"] \in {"absent", "g2", "gbad"}
             /\ o["metrics.yaml"] \in {"absent", "m2", "mbad"}
